@@ -1329,3 +1329,122 @@ package gogu
 //@   ensures docount == old(docount) + 1 && doran && result1 != nil ==> (forall k T :: { m.Cache.items[k] } ((k in m.Cache.items) <==> old(k in m.Cache.items)) && m.Cache.items[k] == old(m.Cache.items[k]))
 //@   ensures forall k T :: { m.Cache.items[k] } k != key ==> ((k in m.Cache.items) <==> old(k in m.Cache.items)) && m.Cache.items[k] == old(m.Cache.items[k])
 //@   ensures docount == old(docount) + 1 && doran && result1 == nil && !old(key in m.Cache.items) && result0 != nil && !isEmptyString(result0.object) ==> key in m.Cache.items && m.Cache.items[key].object == result0.object
+
+// ---------------------------------------------------------------- C15: string helpers
+
+//@ func gogu.SplitAtIndex
+//@   property C15 C16
+//@   ensures len(result) == 2 && fresh(result)
+//@   ensures index < 0 ==> result[0] == "" && result[1] == str
+//@   ensures index >= len(str) ==> result[0] == str && result[1] == ""
+//@   ensures 0 <= index && index < len(str) ==> result[0] == str[0 : index+1] && result[1] == str[index+1 : len(str)]
+
+//@ func gogu.Substr
+//@   property C15 C16
+//@   arith checked
+//@   requires 0 - 1152921504606846976 <= offset && offset <= 1152921504606846976 && 0 - 1152921504606846976 <= length && length <= 1152921504606846976
+//@   ensures let n := len(str) in let o := (offset < 0 ? n + offset : offset) in let e := (length < 0 ? n + length : o + length) in let e2 := (e > n ? n : e) in ((offset < 0 && abs(o) > n) || (length < 0 && (abs(n + length) > n || n + length < o)) || !(0 <= o && o <= n) || !(0 <= e2 && e2 <= n)) ==> result == ""
+//@   ensures let n := len(str) in let o := (offset < 0 ? n + offset : offset) in let e := (length < 0 ? n + length : o + length) in let e2 := (e > n ? n : e) in !((offset < 0 && abs(o) > n) || (length < 0 && (abs(n + length) > n || n + length < o)) || !(0 <= o && o <= n) || !(0 <= e2 && e2 <= n)) ==> o <= e2 && result == str[o : e2]
+
+//@ pred cycPrefix(r string, lo int, n int, token string) := forall i int :: { r[lo + i] } 0 <= i && i < n ==> r[lo + i] == cyc(token, i)
+
+//@ func gogu.PadLeft
+//@   property C15 C16
+//@   requires len(token) > 0 && size <= 72057594037927936
+//@   ensures size <= len(str) ==> result == str
+//@   ensures size > len(str) ==> len(result) == size && result[size - len(str) : size] == str && cycPrefix(result, 0, size - len(str), token)
+
+//@ func gogu.PadRight
+//@   property C15 C16
+//@   requires len(token) > 0 && size <= 72057594037927936
+//@   ensures size <= len(str) ==> result == str
+//@   ensures size > len(str) ==> len(result) == size && result[0 : len(str)] == str && cycPrefix(result, len(str), size - len(str), token)
+
+//@ func gogu.Pad
+//@   property C15 C16
+//@   requires len(token) > 0 && size <= 72057594037927936
+//@   ensures size <= len(str) ==> result == str
+//@   ensures size > len(str) ==> len(result) == size
+//@   ensures size > len(str) ==> result[(size - len(str)) / 2 : (size - len(str)) / 2 + len(str)] == str
+//@   ensures size > len(str) ==> cycPrefix(result, 0, (size - len(str)) / 2, token)
+//@   ensures size > len(str) ==> cycPrefix(result, (size - len(str)) / 2 + len(str), size - len(str) - (size - len(str)) / 2, token)
+
+//@ func gogu.Wrap
+//@   property C15 C16
+//@   ensures result == token + str + token
+
+//@ func gogu.Unwrap
+//@   property C15 C16
+//@   ensures len(str) >= 2 * len(token) && str[0 : len(token)] == token && str[len(str) - len(token) : len(str)] == token ==> result == str[len(token) : len(str) - len(token)]
+//@   ensures !(len(str) >= 2 * len(token) && str[0 : len(token)] == token && str[len(str) - len(token) : len(str)] == token) ==> result == str
+
+// Case mapping: the result is the UTF-8 encoding of the runes of str, each mapped by unicode.ToLower / ToUpper
+// (rp[k] is the byte position of the k-th rune of str; outs the mapped rune sequence).
+
+//@ pred runeWalk(str string, rp map[int]int, n int) := (n == 0 <==> len(str) == 0) && (n > 0 ==> rp[0] == 0 && rp[n - 1] + runew(str, rp[n - 1]) == len(str)) && (forall k int :: { rp[k] } 0 <= k && k < n - 1 ==> rp[k + 1] == rp[k] + runew(str, rp[k])) && (forall k int :: { rp[k] } 0 <= k && k < n ==> 0 <= rp[k] && rp[k] < len(str))
+
+//@ func gogu.ToLower
+//@   property C15 C16
+//@   ghost rp map[int]int
+//@   ghost outs seq[int]
+//@   ghost n int = 0
+//@   ensures n >= 0 && runeWalk(str, rp, n) && result == runestr(outs, 0, n)
+//@   ensures forall k int :: { outs[k] } 0 <= k && k < n ==> outs[k] == lower(runeat(str, rp[k]))
+//@ loop 1
+//@   invariant fresh(result) && sarr(result) != 0 && soff(result) == 0 && 0 <= $pos && $pos <= len(str) && (len(result) == 0 <==> $pos == 0) && n == len(result) && (n > 0 ==> outs == elems(result))
+//@   invariant len(result) > 0 ==> rp[0] == 0 && rp[len(result) - 1] + runew(str, rp[len(result) - 1]) == $pos
+//@   invariant forall k int :: { rp[k] } 0 <= k && k < len(result) - 1 ==> rp[k + 1] == rp[k] + runew(str, rp[k])
+//@   invariant forall k int :: { rp[k] } 0 <= k && k < len(result) ==> 0 <= rp[k] && rp[k] < len(str) && result[k] == lower(runeat(str, rp[k]))
+//@   ghost rp[len(result) - 1] = $key
+//@   ghost outs = elems(result)
+//@   ghost n = len(result)
+
+//@ func gogu.ToUpper
+//@   property C15 C16
+//@   ghost rp map[int]int
+//@   ghost outs seq[int]
+//@   ghost n int = 0
+//@   ensures n >= 0 && runeWalk(str, rp, n) && result == runestr(outs, 0, n)
+//@   ensures forall k int :: { outs[k] } 0 <= k && k < n ==> outs[k] == upper(runeat(str, rp[k]))
+//@ loop 1
+//@   invariant fresh(result) && sarr(result) != 0 && soff(result) == 0 && 0 <= $pos && $pos <= len(str) && (len(result) == 0 <==> $pos == 0) && n == len(result) && (n > 0 ==> outs == elems(result))
+//@   invariant len(result) > 0 ==> rp[0] == 0 && rp[len(result) - 1] + runew(str, rp[len(result) - 1]) == $pos
+//@   invariant forall k int :: { rp[k] } 0 <= k && k < len(result) - 1 ==> rp[k + 1] == rp[k] + runew(str, rp[k])
+//@   invariant forall k int :: { rp[k] } 0 <= k && k < len(result) ==> 0 <= rp[k] && rp[k] < len(str) && result[k] == upper(runeat(str, rp[k]))
+//@   ghost rp[len(result) - 1] = $key
+//@   ghost outs = elems(result)
+//@   ghost n = len(result)
+
+//@ func gogu.Capitalize
+//@   property C15 C16
+//@   ghost rp map[int]int
+//@   ghost outs seq[int]
+//@   ghost n int = 0
+//@   ensures n >= 0 && runeWalk(str, rp, n) && result == runestr(outs, 0, n)
+//@   ensures forall k int :: { outs[k] } 0 <= k && k < n ==> outs[k] == (k == 0 ? upper(runeat(str, rp[k])) : lower(runeat(str, rp[k])))
+//@ loop 1
+//@   invariant fresh(result) && sarr(result) != 0 && soff(result) == 0 && 0 <= $pos && $pos <= len(str) && (len(result) == 0 <==> $pos == 0) && n == len(result) && (n > 0 ==> outs == elems(result))
+//@   invariant len(result) > 0 ==> rp[0] == 0 && rp[len(result) - 1] + runew(str, rp[len(result) - 1]) == $pos
+//@   invariant forall k int :: { rp[k] } 0 <= k && k < len(result) - 1 ==> rp[k + 1] == rp[k] + runew(str, rp[k])
+//@   invariant forall k int :: { rp[k] } 0 <= k && k < len(result) ==> 0 <= rp[k] && rp[k] < len(str) && result[k] == (k == 0 ? upper(runeat(str, rp[k])) : lower(runeat(str, rp[k])))
+//@   ghost rp[len(result) - 1] = $key
+//@   ghost outs = elems(result)
+//@   ghost n = len(result)
+
+//@ func gogu.ReverseStr
+//@   property C15 C12 C16
+//@   ghost outs seq[int]
+//@   exit-ghost outs = elems(res)
+//@   ensures result == runestr(outs, 0, nrunes(str))
+//@   ensures outs == elems(res) && soff(res) == 0 && len(res) == nrunes(str) && forall k int :: { res[k] } 0 <= k && k < nrunes(str) ==> res[k] == strrunes(str)[nrunes(str) - 1 - k]
+//@ loop 1
+//@   invariant fresh(res) && sarr(res) != 0 && soff(res) == 0 && len(res) == nrunes(str) && 0 <= i && j == len(res) - 1 - i && i <= j + 1
+//@   invariant forall k int :: { res[k] } 0 <= k && k < i ==> res[k] == strrunes(str)[len(res) - 1 - k] && res[len(res) - 1 - k] == strrunes(str)[k]
+//@   invariant forall k int :: { res[k] } i <= k && k <= j ==> res[k] == strrunes(str)[k]
+
+//@ func gogu.WrapAllRune
+//@   property C15 C16
+//@   ensures len(str) == 0 ==> result == ""
+//@   ensures len(str) > 0 ==> len(result) >= 2 * len(token) + 1
+//@ loop 1
+//@   invariant 0 <= $pos && $pos <= len(str) && ($pos == 0 ==> builder(s) == "") && ($pos > 0 ==> len(builder(s)) >= 2 * len(token) + 1)
